@@ -649,6 +649,12 @@ func (idx *indexer) indexSince(txID uint64) error {
 
 			n := serializeIndexableEntry(b[:], txmd, e, kvmd)
 
+			if idx.maxBulkSize > 1 {
+				// without mappers the key aliases the buffer of idx.tx, which is
+				// overwritten as soon as the next transaction of the bulk is read
+				targetKey = append([]byte(nil), targetKey...)
+			}
+
 			idx._kvs[indexableEntries].K = targetKey
 			idx._kvs[indexableEntries].V = b[:n]
 			idx._kvs[indexableEntries].T = txID + uint64(i)
